@@ -173,10 +173,20 @@ def run(repo='/repo', tier='quick'):
     for atoms, events, end, seq in P.enum_paths_seq(f, (f.entry, -1)):
         if end[0] != 'return':
             continue
+        if not P.flag_feasible(f, seq):
+            continue                        # a branch on a constant-valued local (`yield`) contradicts what the path stored in it
         npaths += 1
         facts = [a for a, b in atoms]
         ret = lit_name(P.ret_value(end[3]))
         neg = lambda a: (a[0], P.NEG[a[1]], a[2])
+        rv0 = strip(P.ret_value(end[3]))
+        if ret is None and rv0 is not None and rv0.get('k') == 'cond':
+            # return flag ? X : Y - the arm is decided by the branch the path took on the flag
+            ca = P.canon(rv0['c'])
+            if ca in facts:
+                ret = lit_name(rv0['a'])
+            elif ca and neg(ca) in facts:
+                ret = lit_name(rv0['b'])
         trig_true = H in facts and ((A in facts and B in facts) or Fl in facts)
         trig_false = neg(H) in facts or ((neg(A) in facts or neg(B) in facts) and neg(Fl) in facts)
         if ret == 'HTP_DATA_OTHER':
@@ -185,6 +195,8 @@ def run(repo='/repo', tier='quick'):
             if Fl in facts and not (A in facts and B in facts):
                 cleared = any(x[0] == 'stmt' and any(is_lit(w['r'], 0) for w in P.assigns_field(x[3], 'out_data_other_at_tx_end')) for x in seq)
                 res.check(cleared, 'C16.d', f.name + ':flag-cleared-on-yield', 'the one-shot flag is cleared when it is honoured', 'out_data_other_at_tx_end is not cleared when honoured: every later transaction would yield too', end[3]['loc'])
+        elif trig_true and any(a[1] == '!=' and a[2] == 'HTP_OK' and a[0] == P.K(P.ret_value(end[3])) for a in facts):
+            pass                            # a callback of the finalisation failed: its status is returned instead (an error or a stop outranks the yield)
         elif trig_true:
             res.violated('C16.d', f.name + ':yields-when-documented', 'the hand-over condition holds but the function does not return HTP_DATA_OTHER', end[3]['loc'])
     if not any(o['rule'] == 'C16.d' and o['status'] == 'VIOLATED' for o in res.obs):
